@@ -6,7 +6,6 @@ import (
 	"io"
 	"strings"
 	"unicode"
-	"unicode/utf8"
 	"unsafe"
 )
 
@@ -371,7 +370,7 @@ func (l *Lexer) quotedToken() (Token, error) {
 			s := l.chunk()
 
 			// Checks if it contains invalid octal or hexadecimal escape sequences.
-			if strings.ContainsRune(unquote(s), utf8.RuneError) {
+			if !validEscapeSequences(s) {
 				return Token{kind: tokenInvalid, val: s}, nil
 			}
 
